@@ -42,7 +42,12 @@ def r1(ctx):
 
     def parts(t):
         if isinstance(t, Ite):
-            return t.cond, t.a, t.b
+            c = t.cond
+            if isinstance(c, Cmp) and c.op == '!=':
+                return Cmp('==', c.lhs, c.rhs), t.b, t.a        # `if shape != (): array else: scalar`
+            if isinstance(c, BoolT) and c.op == 'not' and isinstance(c.args[0], Cmp) and c.args[0].op == '==':
+                return c.args[0], t.b, t.a
+            return c, t.a, t.b
         return None, None, t
     cx, sx, ax = parts(fx)
     cy, sy, ay = parts(fy)
